@@ -396,7 +396,7 @@ func loadContracts(files []string, pkgNames []string) (*Contracts, error) {
 	return cs, nil
 }
 
-var specFuncRe = regexp.MustCompile(`^func\s+(\w+)\s*\((.*?)\)\s*(\w+)\s*(=\s*(.*)|uninterpreted)?$`)
+var specFuncRe = regexp.MustCompile(`^func\s+(\w+)\s*\((.*?)\)\s*([\w\[\].]+)\s*(=\s*(.*)|uninterpreted)?$`)
 
 func parseSpecFunc(s, pkg string) (*SpecFunc, error) {
 	m := specFuncRe.FindStringSubmatch(strings.TrimSpace(s))
